@@ -541,9 +541,13 @@ class Function(object):
 
         """
 
+        # The points stored in list_of_points are pruned (see add_point): compare them with the pruned decomposition of "point",
+        # so that 2 points with the same decomposition up to null coefficients are recognized as the same point.
+        point_decomposition_dict = prune_dict(point.decomposition_dict)
+
         # Browse the list of point "self" has been evaluated on
         for triplet in self.list_of_points:
-            if triplet[0].decomposition_dict == point.decomposition_dict:
+            if triplet[0].decomposition_dict == point_decomposition_dict:
                 # If "self" has been evaluated on "point", then break the loop and return its corresponding data
                 return triplet[1:]
 
